@@ -61,6 +61,17 @@ def join_built(rng, names):
 def gen_cases(rng, tier):
     out = []
     n = 700 if tier == "quick" else 6000
+    # enumerated core: a narrow relation over a, b, c stored in each of the six column orders (a chain of joins),
+    # against a wide literal over a, b, c, d, under every operator and both operand orders
+    for perm in itertools.permutations(["a", "b", "c"]):
+        vals = {"a": [1, 2], "b": [2, 5], "c": [3]}
+        narrow = X.rel([perm[0]], [[N(v)] for v in vals[perm[0]]])
+        for nme in perm[1:]:
+            narrow = X.join("<&>", narrow, X.rel([nme], [[N(v)] for v in vals[nme]]))
+        wide = X.rel(["a", "b", "c", "d"], [[N(1), N(2), N(3), N(9)], [N(1), N(5), N(7), N(9)], [N(2), N(2), N(3), N(8)], [N(3), N(3), N(3), N(7)]])
+        for op in JOINS:
+            out.append(("core %s" % op, X.join(op, wide, narrow)))
+            out.append(("core %s" % op, X.join(op, narrow, wide)))
     # wide x narrow with three or more common columns, either side join-built in any stored order
     WIDE = ["a", "b", "c", "d", "e"]
     for _ in range(120 if tier == "quick" else 1200):
@@ -152,7 +163,7 @@ def main(tier, seed, replay=None):
     for c in cases:
         ops[c.get("label")] = ops.get(c.get("label"), 0) + 1
     evalcheck.stats(run, cases, outs, codes,
-                    "pairs of relations over the attribute alphabet {a,b,c,x,@,@item,@char} (0-3 attributes a side, any overlap, 1-3 rows over 3 atoms) in the forms relation literal / set of tuples / tuples with shuffled attribute order / computed by => / join-built (stored heading not sorted) / arrays, strings and dicts used as binary relations, x the eight join operators, incl. joins of join results; wide (3-5 columns over a..e) against narrow relations with three or more common columns, either side a chain of joins with any stored column order; nest |..|n, nest ~|..|n, single-attribute nest (relations of one to three attributes, nesting some or all of them); rank with one or two keys; join-built relations inside =, &, &~, |, <:, sets and dicts of more than 8 members"
+                    "pairs of relations over the attribute alphabet {a,b,c,x,@,@item,@char} (0-3 attributes a side, any overlap, 1-3 rows over 3 atoms) in the forms relation literal / set of tuples / tuples with shuffled attribute order / computed by => / join-built (stored heading not sorted) / arrays, strings and dicts used as binary relations, x the eight join operators, incl. joins of join results; an enumerated core (a relation over a, b, c stored in each of the six column orders x a wide literal x 8 operators x both operand orders); wide (3-5 columns over a..e) against narrow relations with three or more common columns, either side a chain of joins with any stored column order; nest |..|n, nest ~|..|n, single-attribute nest (relations of one to three attributes, nesting some or all of them); rank with one or two keys; join-built relations inside =, &, &~, |, <:, sets and dicts of more than 8 members"
                     + ("; thorough adds every heading partition (left-only x common x right-only, both stored orders) x 8 operators" if tier == "thorough" else ""),
                     {"operator_histogram": ops, "exhaustive": False})
     run.assumptions = ["rank keys are numbers (other keys are ordered by the Go order, see C06)"]
